@@ -500,9 +500,9 @@ def pretags(pc):
 
 def subchecks(tier):
     return [
-        Sub("rewrite", body, strategy=pair_case, quick=700, thorough=20000, pretags=pretags),
-        Sub("reroot", body, strategy=lambda: pair_case(force="reroot"), quick=250, thorough=8000, pretags=pretags),
-        Sub("shared", shared_body, strategy=shared_case, quick=200, thorough=4000),
+        Sub("rewrite", body, strategy=pair_case, quick=700, thorough=50000, pretags=pretags),
+        Sub("reroot", body, strategy=lambda: pair_case(force="reroot"), quick=250, thorough=20000, pretags=pretags),
+        Sub("shared", shared_body, strategy=shared_case, quick=200, thorough=10000),
         Sub("sum_cols", sum_body, strategy=lambda: phylo.like_case(families=("nucleotide", "general"), nmax=6), quick=80, thorough=1500),
         Sub("all_roots", body, enumerate=_root_cases, expand=expand_root_case, exhaustive=(tier == "thorough"), pretags=pretags),
     ]
